@@ -490,3 +490,82 @@ fires('m150-mul-mutates-cache', ['C17'], [(CORE, "        data = self.data * n\n
 fires('m151-join-filter-empty', ['C17'], [(CORE, "            other.data for other in self._check_iter_others(others)\n", "            other.data for other in self._check_iter_others(others) if len(other)\n")], 'empty regions no longer contribute their separator')
 silent('t142-check-iter-yields-before-check', ['C17'], [(CORE, "            self._check_other_parameters(other)\n            yield other\n", "            yield other\n            self._check_other_parameters(other)\n")])
 silent('t140-eq-order', ['C17'], [(CORE, "            (self.data == other.data)\n            and (self.sr == other.sr)", "            (self.sr == other.sr)\n            and (self.data == other.data)")])
+
+# ------------------------------------------------------------------ C18 save / load
+fires('m160-D4-reintroduced', ['C18'], [(CORE, "    data = audio_source.read(max_read)\n    if data is None:\n        data = b\"\"\n    audio_source.close()", "    data = audio_source.read(max_read)\n    audio_source.close()")], 'finding D4')
+fires('m161-load-wave-width-from-channels', ['C18', 'C09'], [(IO, "        data, sampling_rate=srate, sample_width=swidth, channels=channels\n", "        data, sampling_rate=srate, sample_width=channels, channels=channels\n")])
+fires('m162-exists-test-after-write', ['C18'], [(CORE, """            if not exists_ok and os.path.exists(filename):
+                raise FileExistsError(
+                    "file '{filename}' exists".format(filename=filename)
+                )
+        to_file(""", """        to_file("""), (CORE, """            audio_parameters=audio_parameters,
+        )
+        return filename
+
+    def split(""", """            audio_parameters=audio_parameters,
+        )
+        if isinstance(filename, str) and not exists_ok and os.path.exists(filename):
+            raise FileExistsError(
+                "file '{filename}' exists".format(filename=filename)
+            )
+        return filename
+
+    def split(""")])
+fires('m163-skip-int', ['C18'], [(CORE, "        skip_samples = round(skip * audio_source.sampling_rate)\n", "        skip_samples = int(skip * audio_source.sampling_rate)\n")])
+fires('m164-save-wave-setters-swapped', ['C18'], [(IO, "        fp.setsampwidth(sample_width)\n        fp.setnchannels(channels)\n", "        fp.setsampwidth(channels)\n        fp.setnchannels(sample_width)\n")])
+fires('m165-placeholder-end-from-start', ['C18'], [(CORE, "                start=self.start,\n                end=self.end,\n            )", "                start=self.start,\n                end=self.start,\n            )")])
+fires('m166-exists-tested-on-template', ['C18'], [(CORE, """        if isinstance(filename, str):
+            filename = filename.format(
+                duration=self.duration,
+                meta=self.meta,
+                start=self.start,
+                end=self.end,
+            )
+            if not exists_ok and os.path.exists(filename):
+                raise FileExistsError(
+                    "file '{filename}' exists".format(filename=filename)
+                )""", """        if isinstance(filename, str):
+            if not exists_ok and os.path.exists(filename):
+                raise FileExistsError(
+                    "file '{filename}' exists".format(filename=filename)
+                )
+            filename = filename.format(
+                duration=self.duration,
+                meta=self.meta,
+                start=self.start,
+                end=self.end,
+            )""")], 'existence tested on the un-expanded template name')
+fires('m167-max-read-before-skip', ['C18'], [(CORE, """    if skip is not None and skip > 0:
+        skip_samples = round(skip * audio_source.sampling_rate)
+        audio_source.read(skip_samples)
+    if max_read is not None:""", """    if skip is not None and skip > 0:
+        skip_samples = round(skip * audio_source.sampling_rate)
+        skipped = audio_source.read(skip_samples)
+        if max_read is None:
+            max_read = -1
+        else:
+            return skipped, audio_source.sampling_rate, audio_source.sample_width, audio_source.channels
+    if max_read is not None:""")])
+fires('m168-wave-source-rate-from-width', ['C18', 'C09'], [(IO, "            stream.getframerate(),\n            stream.getsampwidth(),\n            stream.getnchannels(),", "            stream.getframerate(),\n            stream.getnchannels(),\n            stream.getsampwidth(),")])
+fires('m169-to-file-raw-truncated', ['C18'], [(IO, "    if audio_format in (None, \"raw\"):\n        _save_raw(data, filename)\n        return", "    if audio_format in (None, \"raw\"):\n        _save_raw(data[:-1], filename)\n        return")])
+fires('m170-save-passes-wrong-format', ['C18'], [(CORE, "            self.data,\n            filename,\n            audio_format,\n            sr=self.sr,", "            self.data,\n            filename,\n            None,\n            sr=self.sr,")])
+silent('t160-read-offline-empty-else', ['C18'], [(CORE, "    data = audio_source.read(max_read)\n    if data is None:\n        data = b\"\"\n", "    data = audio_source.read(max_read) or b\"\"\n")])
+
+# ------------------------------------------------------------------ C19 recorder
+fires('m180-limiter-rewind-no-reset', ['C19'], [(UTIL, "    def rewind(self):\n        super().rewind()\n        self._read_samples = 0\n", "    def rewind(self):\n        super().rewind()\n")])
+fires('m181-data-no-guard', ['C19'], [(UTIL, """        if self._data is None:
+            err_msg = "Un-rewinded recorder. `rewind` should be called before "
+            err_msg += "accessing recorded data"
+            raise RuntimeError(err_msg)
+        return self._data""", """        if self._data is None:
+            return b"".join(self._cache)
+        return self._data""")])
+fires('m182-getattr-hides-only-data', ['C19'], [(UTIL, "        if name in (\"data\", \"rewind\") and not self.rewindable:\n", "        if name in (\"data\",) and not self.rewindable:\n")])
+fires('m183-overlap-rewind-no-regen', ['C19'], [(UTIL, "    def rewind(self):\n        super().rewind()\n        self._blocks = self._iter_blocks_with_overlap()\n", "    def rewind(self):\n        super().rewind()\n")])
+fires('m184-cache-none-too', ['C19'], [(UTIL, "        block = self._audio_source.read(size)\n        if block is not None:\n            self._cache.append(block)\n        return block", "        block = self._audio_source.read(size)\n        self._cache.append(block)\n        return block")])
+fires('m185-rewind-keeps-old-source', ['C19'], [(UTIL, "            self._read_block = self._audio_source.read\n            self.open()", "            self.open()")], 'after the first rewind reads keep pulling NEW data from the cache-recording reader')
+fires('m186-rewind-data-reversed', ['C19'], [(UTIL, "            self._data = b\"\".join(self._cache)\n", "            self._data = b\"\".join(reversed(self._cache))\n")])
+fires('m187-limiter-rewind-no-propagation', ['C19'], [(UTIL, "    def rewind(self):\n        super().rewind()\n        self._read_samples = 0\n", "    def rewind(self):\n        self._read_samples = 0\n")])
+fires('m188-cache-twice', ['C19'], [(UTIL, "        if block is not None:\n            self._cache.append(block)\n        return block", "        if block is not None:\n            self._cache.append(block)\n            if len(block) < size:\n                self._cache.append(block)\n        return block")])
+fires('m189-later-rewind-refreezes', ['C19'], [(UTIL, "        if self._read_from_cache:\n            self._audio_source.rewind()\n", "        if self._read_from_cache:\n            self._audio_source.rewind()\n            self._data = self._data[: len(self._data) // 2 * 2]\n")])
+fires('m190-flag-never-set', ['C19'], [(UTIL, "            self.open()\n            self._read_from_cache = True\n", "            self.open()\n")])
